@@ -1,5 +1,8 @@
 """C17 — in-silico digestion returns exactly the peptides the enzyme rules allow
-(correspondence harness: mokapot.digest vs. Lean model `digest` vs. Lean spec enumeration `digestspec`)."""
+(correspondence harness: mokapot.digest vs. Lean model `digest` vs. Lean spec enumeration `digestspec`;
+extensions: `min_length = 0` against the all-bounds spec `digestspec0`, general fixed-width patterns
+(several consumed residues, positive/negative look-ahead, negated classes) against `digestp`/`digestspecp`,
+the entry point called by keyword / positionally / with omitted (default) arguments)."""
 from __future__ import annotations
 
 import itertools
@@ -19,7 +22,10 @@ RULE = (
     "small alphabets, longer over 20 amino acids) + exhaustive over all sequences of length <= 4 over a 4-letter "
     "alphabet x mc 0..3 x all length bounds x clip/semi; thorough = exhaustive up to length 6 on the full "
     "parameter grid and up to length 10 (3-letter alphabet) on mc 0..3 x flags x sampled bounds, several enzymes, "
-    "plus direct monotonicity/substring checks on the real outputs"
+    "plus direct monotonicity/substring checks on the real outputs; extensions: min_length = 0 is in scope "
+    "(spec `DigestSpec0`), general fixed-width patterns (width 1..3, look-ahead of either polarity, negated "
+    "classes; named and random ones) with their own exhaustive sweep, call forms keyword / positional / "
+    "omitted-defaults / digest(sequence), sequences with lower-case and non-standard residue letters"
 )
 
 # regex -> (cleavage residues, blocking next residues) : the class of enzymes the model covers
@@ -35,8 +41,99 @@ ENZYMES = {
 AA20 = "ACDEFGHIKLMNPQRSTVWY"
 _COMPILED = {k: re.compile(k) for k in ENZYMES}
 
+# documented defaults of mokapot.digest (fasta.py:263-271), restated here — never read from the code under test
+DEFAULTS = dict(enz="[KR]", mc=0, clip=False, lo=6, hi=50, semi=False)
+PARAM_ORDER = ("enz", "mc", "clip", "lo", "hi", "semi")
+
+# general fixed-width patterns (Model/DigestPat.lean): regex -> structure
+#   classes: list of [negated, letters] (negated with no letters = any residue), la: None or [positive, negated, letters]
+PATTERNS = {
+    r"\w(?=D)": dict(classes=[[True, ""]], la=[True, False, "D"]),          # Asp-N style
+    r".(?=[DE])": dict(classes=[[True, ""]], la=[True, False, "DE"]),
+    r"[KR](?=[^P])": dict(classes=[[False, "KR"]], la=[True, True, "P"]),    # like (?!P) except at the end
+    r"[^P](?=K)": dict(classes=[[True, "P"]], la=[True, False, "K"]),        # Lys-N style
+    r"KK": dict(classes=[[False, "K"], [False, "K"]], la=None),              # matches must not overlap
+    r"[KR][KR]": dict(classes=[[False, "KR"], [False, "KR"]], la=None),
+    r"[KR][^P]": dict(classes=[[False, "KR"], [True, "P"]], la=None),        # consuming instead of look-ahead
+    r"K.K": dict(classes=[[False, "K"], [True, ""], [False, "K"]], la=None),
+    r"KK(?!K)": dict(classes=[[False, "K"], [False, "K"]], la=[False, False, "K"]),
+    r"[KR]K(?=[^P])": dict(classes=[[False, "KR"], [False, "K"]], la=[True, True, "P"]),
+    r"[^KP]": dict(classes=[[True, "KP"]], la=None),
+    r"M(?!.)": dict(classes=[[False, "M"]], la=[False, True, ""]),            # only at the very end
+}
+
+
+def class_regex(neg, letters, rng=None):
+    if neg:
+        if not letters:
+            return "."
+        return "[^" + letters + "]"
+    if len(letters) == 1 and (rng is None or rng.random() < 0.5):
+        return letters
+    return "[" + letters + "]"
+
+
+def pattern_regex(pat, rng=None):
+    r = "".join(class_regex(n, l, rng) for n, l in pat["classes"])
+    if pat["la"] is not None:
+        pos, n, l = pat["la"]
+        r += ("(?=" if pos else "(?!") + class_regex(n, l, rng) + ")"
+    return r
+
+
+def pattern_alphabet(pat):
+    letters = ""
+    for n, l in pat["classes"]:
+        letters += l[:2]
+    if pat["la"] is not None:
+        letters += pat["la"][2][:2]
+    return list(dict.fromkeys(letters + "M" + "A"))
+
+
+def gen_pattern(rng):
+    """a random fixed-width pattern over a small alphabet"""
+    alpha = rng.sample("KRPDEFA", 3)
+
+    def cls(allow_any=True):
+        r = rng.random()
+        if r < 0.55:
+            return [False, "".join(rng.sample(alpha, rng.choice([1, 1, 2])))]
+        if r < 0.85 or not allow_any:
+            return [True, "".join(rng.sample(alpha, 1))]
+        return [True, ""]
+
+    width = rng.choice([1, 1, 2, 2, 2, 3])
+    classes = [cls() for _ in range(width)]
+    r = rng.random()
+    la = None if r < 0.4 else [r < 0.7, *cls()]
+    return dict(classes=classes, la=la)
+
+
+def py_match_ends(pat, seq):
+    """leftmost non-overlapping matches of a fixed-width pattern, written out directly (no `re`):
+    used for the input-distribution tallies only"""
+    def has(c, ch):
+        return (ch in c[1]) != c[0]
+
+    w = len(pat["classes"])
+    ends, i = [], 0
+    while i + w <= len(seq):
+        ok = all(has(c, seq[i + k]) for k, c in enumerate(pat["classes"]))
+        if ok and pat["la"] is not None:
+            pos, n, l = pat["la"]
+            nxt = seq[i + w] if i + w < len(seq) else None
+            ok = ((nxt is not None) and has([n, l], nxt)) == pos
+        if ok:
+            ends.append(i + w)
+            i += w
+        else:
+            i += 1
+    return ends
+
 
 def small_alphabet(enz):
+    if enz not in ENZYMES:
+        return pattern_alphabet(PATTERNS[enz])
     cls, nn = ENZYMES[enz]
     letters = list(dict.fromkeys(cls[:2] + nn[:1] + "M" + "A"))
     return letters
@@ -45,12 +142,24 @@ def small_alphabet(enz):
 # ----------------------------------------------------------------------------
 # evaluation
 # ----------------------------------------------------------------------------
+def the_regex(c):
+    if c.get("compiled"):
+        if c["enz"] not in _COMPILED:
+            _COMPILED[c["enz"]] = re.compile(c["enz"])
+        return _COMPILED[c["enz"]]
+    return c["enz"]
+
+
 def impl_digest(c):
+    """call the real entry point in the case's call form: all keywords (default), positional, or with the
+    arguments listed in c["omit"] left out (their case values are the documented defaults, set by the generator)"""
     import mokapot
 
-    enz = _COMPILED[c["enz"]] if c.get("compiled") else c["enz"]
-    return mokapot.digest(
-        c["seq"],
+    enz = the_regex(c)
+    form = c.get("call", "kw")
+    if form == "pos":
+        return mokapot.digest(c["seq"], enz, c["mc"], c["clip"], c["lo"], c["hi"], c["semi"])
+    kw = dict(
         enzyme_regex=enz,
         missed_cleavages=c["mc"],
         clip_nterm_methionine=c["clip"],
@@ -58,10 +167,36 @@ def impl_digest(c):
         max_length=c["hi"],
         semi=c["semi"],
     )
+    if form == "omit":
+        names = dict(enz="enzyme_regex", mc="missed_cleavages", clip="clip_nterm_methionine", lo="min_length",
+                     hi="max_length", semi="semi")
+        for k in c["omit"]:
+            assert c[k] == DEFAULTS[k], (k, c[k])
+            del kw[names[k]]
+    return mokapot.digest(c["seq"], **kw)
+
+
+def pat_of(c):
+    return c["pat"] if "pat" in c else PATTERNS.get(c["enz"])
+
+
+def is_pattern(c):
+    return "pat" in c or c["enz"] not in ENZYMES
+
+
+def cls_atom(neg, letters):
+    return common.Atom(("n" if neg else "p") + letters)
 
 
 def wire(op, c):
+    if is_pattern(c):
+        pat = pat_of(c)
+        la = pat["la"] if pat["la"] is not None else [False, False, ""]
+        return req(op + "p", [cls_atom(n, l) for n, l in pat["classes"]], bool(la[0]), cls_atom(la[1], la[2]),
+                   common.Atom("q" + c["seq"]), c["mc"], c["lo"], c["hi"], c["clip"], c["semi"])
     cls, nn = ENZYMES[c["enz"]]
+    if op == "digestspec" and c["lo"] < 1:
+        op = "digestspec0"   # all-bounds specification (min_length = 0 included)
     return req(op, common.Atom("q" + cls), common.Atom("q" + nn), common.Atom("q" + c["seq"]),
                c["mc"], c["lo"], c["hi"], c["clip"], c["semi"])
 
@@ -74,13 +209,22 @@ def parse_peps(line):
 
 
 def internal_sites(c):
-    cls, nn = ENZYMES[c["enz"]]
     s = c["seq"]
+    if is_pattern(c):
+        return sum(1 for e in py_match_ends(pat_of(c), s) if e < len(s))
+    cls, nn = ENZYMES[c["enz"]]
     n = 0
     for i, ch in enumerate(s[:-1]):
         if ch in cls and s[i + 1] not in nn:
             n += 1
     return n
+
+
+def last_residue_cleaves(c):
+    s = c["seq"]
+    if is_pattern(c):
+        return bool(s) and len(s) in py_match_ends(pat_of(c), s)
+    return bool(s) and s[-1] in ENZYMES[c["enz"]][0]
 
 
 def first_clause(c, impl, spec):
@@ -120,37 +264,87 @@ def eval_cases(chk, cases, detail=True):
             continue
         impl = set(out)
         results.append(impl)
-        in_scope = c["lo"] >= 1
         ns = internal_sites(c)
         key = (c["enz"], c["seq"], c["mc"], c["lo"], c["hi"], c["clip"], c["semi"]) if (ns and impl) else None
         chk.case(None, key, sample=dict(case=c, impl=sorted(impl), model=sorted(model)) if (ns and impl) else None)
         if detail:
             n = len(c["seq"])
+            pat = is_pattern(c)
             chk.count("len", n if n <= 10 else ("11-30" if n <= 30 else ("31-100" if n <= 100 else ">100")))
-            chk.count("enzyme", c["enz"])
+            chk.count("enzyme", c["enz"] if (not pat or c["enz"] in PATTERNS) else "(random pattern)")
             chk.count("compiled_regex", bool(c.get("compiled")))
             chk.count("mc", c["mc"])
             chk.count("clip", c["clip"])
             chk.count("semi", c["semi"])
             chk.count("internal_sites", ns if ns <= 5 else ">5")
             chk.count("n_peptides", len(impl) if len(impl) <= 3 else ("4-10" if len(impl) <= 10 else ">10"))
-            chk.count("last_residue_cleaves", bool(c["seq"]) and c["seq"][-1] in ENZYMES[c["enz"]][0])
+            chk.count("last_residue_cleaves", last_residue_cleaves(c))
             chk.count("starts_with_M", c["seq"].startswith("M"))
-            chk.count("min_length_0(out of scope, model only)", not in_scope)
+            chk.count("min_length_0", c["lo"] < 1)
+            chk.count("empty_peptide_returned", "" in impl)
+            chk.count("call_form", c.get("call", "kw"))
+            if c.get("call") == "omit":
+                for k_ in c["omit"]:
+                    chk.count("omitted_argument", k_)
+            chk.count("nonstandard_residues", any(ch not in AA20 for ch in c["seq"]))
+            if pat:
+                p = pat_of(c)
+                chk.count("pattern_width", len(p["classes"]))
+                chk.count("pattern_lookahead", "none" if p["la"] is None else ("positive" if p["la"][0] else "negative"))
+                chk.count("pattern_negated_class", any(n_ for n_, _ in p["classes"]))
         if not all(isinstance(p, str) for p in out):
             chk.spec_violation("non-str-peptide", dict(case=c, impl=repr(out), clause="result is not a set of str"))
             continue
-        if in_scope and impl != spec:
+        if impl != spec:
+            sig = "digest-vs-spec" + ("-pattern" if is_pattern(c) else "") + ("-minlen0" if c["lo"] < 1 else "")
             chk.spec_violation(
-                "digest-vs-spec",
-                dict(case=c, impl=sorted(impl), expected=sorted(spec), clause=first_clause(c, impl, spec)))
+                sig, dict(case=c, impl=sorted(impl), expected=sorted(spec), clause=first_clause(c, impl, spec)))
         elif impl != model:
-            if in_scope:
-                chk.corr_break("digest", dict(case=c, impl=sorted(impl), model=sorted(model)))
-            else:
-                # min_length = 0 is outside the property's quantifier (DESIGN C17 "boundary"): informational
-                info(chk, "min_length_0_model_disagreements", dict(case=c, impl=sorted(impl), model=sorted(model)))
+            chk.corr_break("digestp" if is_pattern(c) else "digest",
+                           dict(case=c, impl=sorted(impl), model=sorted(model)))
     return results
+
+
+def default_call_cases(chk, rng, n):
+    """`mokapot.digest(sequence)` with every optional argument omitted, against the model op `digestdefault`
+    and the spec enumeration with the documented defaults written out"""
+    import mokapot
+
+    seqs = []
+    for _ in range(n):
+        k = rng.random()
+        if k < 0.5:
+            m = rng.randint(0, 40)
+            seqs.append("".join(rng.choices("KRPMA", weights=[2, 1, 1, 1, 6], k=m)))
+        else:
+            m = rng.randint(20, 90)
+            w = [(5 if a in "KR" else (2 if a in "PM" else 1)) for a in AA20]
+            seqs.append("".join(rng.choices(AA20, weights=w, k=m)))
+    cases = [dict(DEFAULTS, seq=s, compiled=False) for s in seqs]
+    lines = []
+    for c in cases:
+        lines.append(req("digestdefault", common.Atom("q" + c["seq"])))
+        lines.append(wire("digestspec", c))
+    resp = common.driver_batch(lines)
+    for k, c in enumerate(cases):
+        model = parse_peps(resp[2 * k])
+        spec = parse_peps(resp[2 * k + 1])
+        try:
+            impl = set(mokapot.digest(c["seq"]))
+        except Exception as e:
+            chk.spec_violation("exception:" + type(e).__name__,
+                               dict(case=dict(c, call="omit", omit=list(PARAM_ORDER)), error=repr(e),
+                                    clause="mokapot.digest(sequence) raised"))
+            continue
+        cc = dict(c, call="omit", omit=list(PARAM_ORDER))
+        chk.case(None, ("default", c["seq"]) if impl else None, sample=None)
+        chk.count("call_form", "digest(sequence)")
+        chk.count("default_call_n_peptides", len(impl) if len(impl) <= 3 else ">3")
+        if impl != spec:
+            chk.spec_violation("digest-vs-spec", dict(case=cc, impl=sorted(impl), expected=sorted(spec),
+                                                      clause="digest(sequence): " + first_clause(c, impl, spec)))
+        elif impl != model:
+            chk.corr_break("digestdefault", dict(case=cc, impl=sorted(impl), model=sorted(model)))
 
 
 def direct_clauses(chk, c, impl_of):
@@ -162,9 +356,10 @@ def direct_clauses(chk, c, impl_of):
                                                  clause=f"{p!r} is not a substring of the protein"))
     for name, c2 in (
         ("mono-mc", dict(c, mc=c["mc"] + 1)),
-        ("mono-bounds-lo", dict(c, lo=max(1, c["lo"] - 1))),
+        ("mono-bounds-lo", dict(c, lo=max(0, c["lo"] - 1))),
         ("mono-bounds-hi", dict(c, hi=c["hi"] + 1)),
         ("mono-semi", dict(c, semi=True)),
+        ("mono-clip", dict(c, clip=True)),
     ):
         bigger = impl_of(c2)
         chk.count("direct_clause", name)
@@ -174,36 +369,59 @@ def direct_clauses(chk, c, impl_of):
 
 
 def sites_cases(chk, rng, n):
-    """`_cleavage_sites` through the model op `sites` (private helper: correspondence only, informational)"""
+    """`_cleavage_sites` through the model ops `sites` / `sitesp` (private helper: correspondence only, informational)"""
     from mokapot.parsers import fasta
 
     cases = []
     for _ in range(n):
-        enz = rng.choice(list(ENZYMES))
-        alpha = small_alphabet(enz)
+        if rng.random() < 0.5:
+            enz = rng.choice(list(ENZYMES))
+            pat = None
+        elif rng.random() < 0.5:
+            enz = rng.choice(list(PATTERNS))
+            pat = PATTERNS[enz]
+        else:
+            pat = gen_pattern(rng)
+            enz = pattern_regex(pat, rng)
+        alpha = small_alphabet(enz) if pat is None else pattern_alphabet(pat)
         seq = "".join(rng.choice(alpha) for _ in range(rng.randint(0, 12)))
-        cases.append((enz, seq))
-    cls_nn = [ENZYMES[e] for e, _ in cases]
-    resp = common.driver_batch([req("sites", common.Atom("q" + cn[0]), common.Atom("q" + cn[1]), common.Atom("q" + s))
-                                for cn, (_, s) in zip(cls_nn, cases)])
-    for (enz, seq), r in zip(cases, resp):
+        cases.append((enz, pat, seq))
+    lines = []
+    for enz, pat, seq in cases:
+        if pat is None:
+            cn = ENZYMES[enz]
+            lines.append(req("sites", common.Atom("q" + cn[0]), common.Atom("q" + cn[1]), common.Atom("q" + seq)))
+        else:
+            la = pat["la"] if pat["la"] is not None else [False, False, ""]
+            lines.append(req("sitesp", [cls_atom(n_, l) for n_, l in pat["classes"]], bool(la[0]),
+                             cls_atom(la[1], la[2]), common.Atom("q" + seq)))
+    resp = common.driver_batch(lines)
+    for (enz, pat, seq), r in zip(cases, resp):
         model = [int(t) for t in r.strip()[1:-1].split()]
         impl = list(fasta._cleavage_sites(seq, enz))
-        chk.count("sites_cases")
+        chk.count("sites_cases", "class" if pat is None else "pattern")
         if impl != model:
             # private helper, not an observation point of C17: never part of the verdict (DESIGN 2.4)
             info(chk, "private_helper_sites_disagreements", dict(enz=enz, seq=seq, impl=impl, model=model))
+        if pat is not None and [0] + py_match_ends(pat, seq) + [len(seq)] != model:
+            info(chk, "harness_tally_matcher_disagreements", dict(enz=enz, seq=seq, model=model))
 
 
 # ----------------------------------------------------------------------------
 # generators
 # ----------------------------------------------------------------------------
-def gen_seq(rng, enz, nmax):
-    cls, nn = ENZYMES[enz]
+def gen_seq(rng, enz, nmax, pat=None):
+    if pat is None and enz in ENZYMES:
+        cls, nn = ENZYMES[enz]
+        alpha = small_alphabet(enz)
+    else:
+        pat = pat or PATTERNS[enz]
+        alpha = pattern_alphabet(pat)
+        cls = "".join(l for n_, l in pat["classes"] if not n_) or "K"
+        nn = (pat["la"][2] if pat["la"] is not None else "") + "".join(l for n_, l in pat["classes"] if n_)
     kind = rng.random()
     if kind < 0.55:
         n = rng.choice([0, 1, 2, 3, 3, 4, 4, 5, 5, 6, 6, 7, 8, 9, 10])
-        alpha = small_alphabet(enz)
         s = "".join(rng.choice(alpha) for _ in range(n))
     elif kind < 0.9:
         n = rng.randint(11, 60)
@@ -217,33 +435,67 @@ def gen_seq(rng, enz, nmax):
         s = "M" + s[1:]
     if s and rng.random() < 0.2:
         s = s[:-1] + rng.choice(cls)
+    if s and rng.random() < 0.08:
+        # lower-case residues (never cleavage residues of an upper-case class) and non-standard letters
+        t = list(s)
+        for _ in range(rng.randint(1, 3)):
+            i = rng.randrange(len(t))
+            t[i] = t[i].lower() if rng.random() < 0.6 else rng.choice("XBZUOJ")
+        s = "".join(t)
     return s
 
 
 def gen_case(rng, nmax=160):
-    enz = rng.choice(list(ENZYMES))
-    seq = gen_seq(rng, enz, nmax)
+    r0 = rng.random()
+    pat = None
+    if r0 < 0.62:
+        enz = rng.choice(list(ENZYMES))
+    elif r0 < 0.84:
+        enz = rng.choice(list(PATTERNS))
+        pat = PATTERNS[enz]
+    else:
+        pat = gen_pattern(rng)
+        enz = pattern_regex(pat, rng)
+    # patterns with negated / any-residue classes cut almost everywhere: the spec enumeration is cubic in the
+    # number of sites, so their sequences are capped (the class enzymes keep the long ones)
+    seq = gen_seq(rng, enz, nmax if pat is None else min(nmax, 48), pat)
     n = len(seq)
     mc = rng.choice([0, 0, 1, 1, 2, 2, 3, 3, 4, 6])
     r = rng.random()
     if r < 0.1 and n >= 8:
         lo, hi = 6, 50  # defaults
     elif r < 0.18:
-        lo = 0  # outside the property's quantifier: model correspondence only
+        lo = 0  # all-bounds specification (`digestspec0` / `digestspecp`)
         hi = rng.randint(0, max(1, n))
     else:
         lo = rng.choice([1, 1, 1, 1, 2, 2, 2, 3, 3, 4, 5, 7] + ([max(1, n - 1), n, n + 1] if rng.random() < 0.15 else []))
         lo = min(lo, max(1, n)) if rng.random() < 0.9 else lo
         hi = rng.choice([lo, lo + 1, lo + 2, lo + 4, lo + 10, max(lo, n), n + 3, 50] + ([lo - 1] if rng.random() < 0.2 else []))
         hi = max(hi, 0)
-    return dict(enz=enz, compiled=rng.random() < 0.3, seq=seq, mc=mc, lo=lo, hi=hi,
-                clip=rng.random() < 0.5, semi=rng.random() < 0.5)
+    c = dict(enz=enz, compiled=rng.random() < 0.3, seq=seq, mc=mc, lo=lo, hi=hi,
+             clip=rng.random() < 0.5, semi=rng.random() < 0.5)
+    if pat is not None and enz not in PATTERNS:
+        c["pat"] = pat
+    r = rng.random()
+    if r < 0.12:
+        c["call"] = "pos"
+    elif r < 0.30 and pat is None:
+        # leave a random non-empty subset of the optional arguments out: they then take their documented defaults
+        omit = [k for k in PARAM_ORDER if rng.random() < 0.4] or [rng.choice(PARAM_ORDER)]
+        for k in omit:
+            c[k] = DEFAULTS[k]
+        if "enz" in omit:
+            c["compiled"] = False
+        c["call"] = "omit"
+        c["omit"] = omit
+    return c
 
 
 def grid_full(enz, seq):
     """every (mc 0..3, 1 <= lo <= n, lo <= hi <= n plus one empty range, flags) for this sequence"""
     n = len(seq)
     bounds = [(lo, hi) for lo in range(1, n + 1) for hi in range(lo, n + 1)] + [(2, 1), (1, n + 2)]
+    bounds += [(0, 0), (0, n)] if n else [(0, 0)]   # min_length = 0: all-bounds specification
     for mc in range(4):
         for lo, hi in bounds:
             for clip in (False, True):
@@ -254,7 +506,7 @@ def grid_full(enz, seq):
 def grid_sampled(rng, enz, seq, nb):
     n = len(seq)
     for _ in range(nb):
-        lo = rng.randint(1, max(1, n))
+        lo = rng.randint(1, max(1, n)) if rng.random() < 0.9 else 0
         hi = rng.randint(lo, n + 1)
         for mc in range(4):
             for clip in (False, True):
@@ -342,8 +594,9 @@ def mono_sweep(chk, rng, n):
 
     for _ in range(n):
         c = gen_case(rng, 40)
-        if c["lo"] < 1:
-            c["lo"] = 1
+        c.pop("call", None)   # the relaxed variants change single arguments: plain keyword calls
+        c.pop("omit", None)
+        chk.count("direct_clause_family", "pattern" if is_pattern(c) else "class")
         direct_clauses(chk, c, impl_of)
         cache.clear()
 
@@ -362,7 +615,7 @@ def minimise(chk):
     if not chk.spec_violations:
         return
     sig, info = chk.spec_violations[0]
-    if "case" not in info or sig != "digest-vs-spec":
+    if "case" not in info or not sig.startswith("digest-vs-spec"):
         return
     c0 = dict(info["case"])
 
@@ -372,11 +625,11 @@ def minimise(chk):
             eval_cases(sub, [c], detail=False)
         except Exception:
             return False
-        return any(s == sig for s, _ in sub.spec_violations)
+        return any(s.startswith("digest-vs-spec") for s, _ in sub.spec_violations)
 
     seq = common.shrink_list(list(c0["seq"]), lambda s: fails_case(dict(c0, seq="".join(s))), min_len=0)
     c = dict(c0, seq="".join(seq), compiled=False)
-    for field, vals in (("semi", [False]), ("clip", [False]), ("mc", range(0, c["mc"])),
+    for field, vals in (("call", ["kw"]), ("semi", [False]), ("clip", [False]), ("mc", range(0, c["mc"])),
                         ("hi", [len(c["seq"])]), ("lo", [1])):
         for v in vals:
             c2 = dict(c, **{field: v})
@@ -386,7 +639,7 @@ def minimise(chk):
     sub = common.Check(chk.prop, chk.tier, chk.seed)
     eval_cases(sub, [c], detail=False)
     for s, i in sub.spec_violations:
-        if s == sig:
+        if s.startswith("digest-vs-spec"):
             chk.spec_violations[0] = (s, dict(i, shrunk_from=c0))
             break
 
@@ -395,14 +648,17 @@ def search(chk):
     """failing-input search used when a proof or the correspondence is broken"""
     rng = chk.rng
     cases = [gen_case(rng, 60) for _ in range(20000)]
-    cases = [c for c in cases if c["lo"] >= 1]
     for i in range(0, len(cases), 5000):
         eval_cases(chk, cases[i:i + 5000], detail=False)
         if chk.spec_violations:
             break
     if not chk.spec_violations:
-        exhaustive(chk, [("[KR](?!P)", tuple("KPMA"), range(0, 6), "full"), ("K", tuple("KMA"), range(0, 7), "full")],
+        exhaustive(chk, [("[KR](?!P)", tuple("KPMA"), range(0, 6), "full"), ("K", tuple("KMA"), range(0, 7), "full"),
+                         ("KK", tuple("KMA"), range(0, 7), "full"), (r"\w(?=D)", tuple("DMA"), range(0, 6), "full"),
+                         ("[KR][^P]", tuple("KPMA"), range(0, 6), "full")],
                    workers=4)
+    if not chk.spec_violations:
+        default_call_cases(chk, rng, 3000)
     if not chk.spec_violations:
         mono_sweep(chk, rng, 3000)
     minimise(chk)
@@ -422,31 +678,58 @@ def main(chk, args):
         chk.finish(build, RULE)
     rng = chk.rng
     quick = chk.tier == "quick"
+    import time as _t
+    _T = [_t.time()]
+
+    def lap(name):
+        if os.environ.get("C17_TIMING"):
+            print(f"  [timing] {name}: {_t.time() - _T[0]:.1f}s", flush=True)
+        _T[0] = _t.time()
+
+    lap("build")
     cases = [dict(c) for c in corpus_cases()]
     cases += [gen_case(rng) for _ in range(12000 if quick else 120000)]
     for i in range(0, len(cases), 10000):
         eval_cases(chk, cases[i:i + 10000])
+    lap("random")
+    default_call_cases(chk, rng, 400 if quick else 6000)
+    lap("default")
     sites_cases(chk, rng, 500 if quick else 5000)
     mono_sweep(chk, rng, 1500 if quick else 15000)
+    lap("sites+mono")
     if quick:
         exhaustive(chk, [("[KR](?!P)", tuple("KPMA"), range(0, 6), "full"),
-                         ("[KR](?!K)", tuple("KRM"), range(0, 5), "full")], workers=min(4, n_workers()))
+                         ("[KR](?!K)", tuple("KRM"), range(0, 5), "full"),
+                         ("KK", tuple("KMA"), range(0, 6), "full"),
+                         (r"\w(?=D)", tuple("DMA"), range(0, 5), "full")], workers=min(4, n_workers()))
     else:
         exhaustive(chk, [("[KR](?!P)", tuple("KPMA"), range(0, 7), "full"),
                          ("K", tuple("KMA"), range(0, 8), "full"),
                          ("[KR](?!K)", tuple("KRMA"), range(0, 6), "full"),
                          ("[FWY]", tuple("FWMA"), range(0, 6), "full"),
                          ("[KR](?!P)", tuple("KPM"), range(7, 11), "sampled"),
-                         ("[KR]", tuple("KRM"), range(7, 10), "sampled")], workers=n_workers())
+                         ("[KR]", tuple("KRM"), range(7, 10), "sampled"),
+                         ("KK", tuple("KMA"), range(0, 8), "full"),
+                         ("[KR][^P]", tuple("KRPM"), range(0, 6), "full"),
+                         (r"\w(?=D)", tuple("DMA"), range(0, 7), "full"),
+                         ("K.K", tuple("KMA"), range(0, 7), "full"),
+                         ("[KR]K(?=[^P])", tuple("KRPM"), range(0, 6), "full"),
+                         ("KK(?!K)", tuple("KM"), range(7, 12), "sampled")], workers=n_workers())
+    lap("exhaustive")
     minimise(chk)
     lc = common.leanchecker("C17") if chk.tier == "thorough" else None
     chk.assumptions += [
-        "the enzyme is a residue class with an optional negative one-residue look-ahead ([..], X, [..](?!..)); for "
-        "these patterns re.finditer is assumed to report one match per matching residue, left to right "
-        "(model `matchEnds`); other regular expressions are outside the model",
-        "sequences are str over A-Z; missed_cleavages, min_length, max_length are non-negative ints; the theorems "
-        "characterising membership need min_length >= 1 (min_length = 0 additionally yields the empty peptide), "
-        "substring/length/monotonicity theorems hold for all bounds",
+        "the enzyme is a fixed-width pattern: one or more residue classes ([..], [^..], ., X) followed by an "
+        "optional one-residue look-ahead of either polarity on such a class; for these patterns re.finditer is "
+        "assumed to report the leftmost non-overlapping matches, scanned left to right (model `matchEnds` for "
+        "width 1 with a negative look-ahead, `matchEndsP` in general; characterised by C17_finditer_leftmost / "
+        "C17_finditer_unique); variable-width and zero-width regular expressions are outside the model",
+        "sequences are str over letters (upper case, occasionally lower case / non-standard); missed_cleavages, "
+        "min_length, max_length are non-negative ints; min_length = 0 is covered by the all-bounds theorems "
+        "(C17_digest_mem_iff_spec_all, C17_digestP_mem_iff_spec: the empty peptide is returned exactly when "
+        "len(sequence) is listed twice among the sites)",
+        "omitted arguments take the documented defaults ([KR], 0, False, 6, 50, False), restated in the harness "
+        "and in `digestDefault`, never read from the code under test",
         "the result is a Python set: compared as a set, the model's insertion order and repetitions are immaterial",
     ]
     chk.finish(build, RULE, search=search, lc=lc,
